@@ -62,7 +62,6 @@ Theorem C01_fourier_mean_zero :
   forall (Om : Type) (E : (Om -> R) -> R) (ora : nat -> list R -> R) (N P : nat)
          (KS : Om -> list (list R)) (Z1 Z2 W : Om -> list R),
     H0_normalised E -> H1_linear E -> H2_amplitudes E N KS Z1 Z2 -> H4_nugget E N P KS Z1 Z2 W ->
-    modes_shape N KS ->
     forall pos : list (list R), shape1 pos = P ->
     forall modes : list (list R), (forall w, KS w = modes) -> shape1 modes = N ->
     forall (spec dk : list R) (nugget : R) (i : nat), (i < P)%nat ->
@@ -75,7 +74,6 @@ Theorem C01_fourier_covariance :
   forall (Om : Type) (E : (Om -> R) -> R) (ora : nat -> list R -> R) (N P : nat)
          (KS : Om -> list (list R)) (Z1 Z2 W : Om -> list R),
     H0_normalised E -> H1_linear E -> H2_amplitudes E N KS Z1 Z2 -> H4_nugget E N P KS Z1 Z2 W ->
-    modes_shape N KS ->
     forall pos : list (list R), shape1 pos = P ->
     forall modes : list (list R), (forall w, KS w = modes) -> shape1 modes = N ->
     forall (spec dk : list R) (nugget : R), 0 <= nugget -> length spec = N ->
@@ -128,14 +126,6 @@ Theorem C01_inversion_sampling :
 Proof. exact inversion_sampling. Qed.
 Print Assumptions C01_inversion_sampling.
 
-Theorem C01_inversion_sampling_reflected :
-  forall cdf ppf : R -> R,
-    (forall r s, 0 <= r -> r < s -> cdf r < cdf s) ->
-    (forall u, 0 < u <= 1 -> 0 <= ppf u /\ cdf (ppf u) = 1 - u) ->
-    forall u r, 0 < u <= 1 -> 0 <= r -> (ppf u <= r <-> 1 - u <= cdf r).
-Proof. exact inversion_sampling_reflected. Qed.
-Print Assumptions C01_inversion_sampling_reflected.
-
 (* the analytic pairs of covmodel/models.py satisfy it (l = len_rescaled > 0) *)
 Theorem C01_inversion_gaussian_2d :
   forall (ora : nat -> list R -> R) (l : R), 0 < l -> forall u r, 0 <= u < 1 -> 0 <= r ->
@@ -150,8 +140,8 @@ Proof. exact exp1_inversion. Qed.
 Print Assumptions C01_inversion_exponential_1d.
 
 Theorem C01_inversion_exponential_2d :
-  forall (ora : nat -> list R -> R) (l : R), 0 < l -> forall u r, 0 < u <= 1 -> 0 <= r ->
-    (exp2_ppf (Rops ora) l u <= r <-> 1 - u <= exp2_cdf (Rops ora) l r).
+  forall (ora : nat -> list R -> R) (l : R), 0 < l -> forall u r, 0 <= u < 1 -> 0 <= r ->
+    (exp2_ppf (Rops ora) l u <= r <-> u <= exp2_cdf (Rops ora) l r).
 Proof. exact exp2_inversion. Qed.
 Print Assumptions C01_inversion_exponential_2d.
 
